@@ -193,6 +193,8 @@ def plan(seed, tier="quick", index=0):
         sc["fault"] = {"kind": "bitflip", "frame": rng.randrange(nframes), "field": rng.choice(["magic", "command", "length", "checksum", "payload", "any"]), "pick": rng.getrandbits(32)}
     elif stratum == "truncate":
         sc["fault"] = {"kind": "truncate", "pick": rng.getrandbits(32), "where": rng.choice(["any", "any", "header", "boundary", "last-byte"])}
+        if rng.random() < 0.5:
+            sc["reconnect"] = {"recycle_identity": rng.random() < 0.6, "frames": [{"cmd": rng.choice(COMMAND_TABLE), "payload_seed": rng.getrandbits(32), "size": rng.choice([0, 8, 36, 100])} for _ in range(rng.choice([1, 2]))]}
     elif stratum == "foreign-magic":
         other = rng.choice([m for m in sorted(MAGICS) if m != network] + ["random"])
         sc["fault"] = {"kind": "foreign-magic", "frame": rng.randrange(nframes), "magic": MAGICS[other].hex() if other != "random" else rng.getrandbits(32).to_bytes(4, "big").hex()}
@@ -287,6 +289,11 @@ def _execute_concurrent(sc, tape, keep_events):
         S._orig_thread_join(t, 30.0)
         if t.is_alive():
             raise HarnessError("simulated receiver thread did not terminate")
+    if aborted and (aborted == "step-cap" or aborted.startswith("deadlock")):
+        res.violations.append(Violation("eof-hang", "concurrent receivers", f"{aborted} after {sched.steps} steps").to_json())
+        res.digest = log.digest()
+        res.nontrivial = True
+        return res
     if aborted:
         raise HarnessError(f"run aborted: {aborted}")
     for ci, stream in enumerate(streams):
@@ -606,13 +613,60 @@ def execute(scenario, tape=None, keep_events=False):
                         trans.add(("P", plen, rel - 24, k))
                 pos += k
         res.stats["trans"] = trans
+        # -- a new connection after this one died: nothing of the old one may leak into it
+        rc = scenario.get("reconnect")
+        recv_count, nsplit = len(sock.recv_log), len(segs)
+        if rc:
+            import gc
+
+            net.sockets.remove(sock)
+            peer.sock = None
+            # CPython hands the address (id) of a dead socket object to a later one sooner or
+            # later; the simulator makes that deterministic by recycling the very same object
+            # for the next connection (seeded), instead of leaving it to the allocator
+            dead = sock if rc.get("recycle_identity") else None
+            sock = None
+            gc.collect()
+            for ci, fd in enumerate(rc["frames"]):
+                pl = _payload_bytes(fd["payload_seed"], fd["size"])
+                want = frames.frame(magic, fd["cmd"], pl)
+                k = 1 + fd["payload_seed"] % max(1, len(want) - 1)
+                rsegs = [(0.0, want[:k]), (0.0, want[k:])] if fd["payload_seed"] % 2 else [(0.0, want)]
+                npeer = Peer(200 + ci, "10.0.8.1", 19500 + ci, rsegs, close_after=True)
+                net.peers[(npeer.host, npeer.port)] = npeer
+                net.by_port[npeer.port] = npeer
+                if dead is not None and ci == 0:
+                    dead.__init__(net)
+                    dead.local_port = 50000 + len(net.sockets)
+                    net.sockets.append(dead)
+                    ns = dead
+                    faults.hit("socket-identity-recycled")
+                else:
+                    ns = net.new_socket()
+                ns.connect((npeer.host, npeer.port))
+                key = f"reconnect conn={ci} cmd={fd['cmd']}"
+                try:
+                    got = p2p.recv_msg(ns)
+                    if not (isinstance(got, tuple) and len(got) == 3 and bytes(got[0]) == magic and bytes(got[1]).ljust(12, b"\x00") == fd["cmd"].encode().ljust(12, b"\x00") and bytes(got[2]) == pl):
+                        viols.append(Violation("message-mismatch", key, f"got {_short(got)} after an earlier connection ended with {fdesc}"))
+                    else:
+                        probes.hit("message-ok-after-reconnect")
+                except SimHang as e:
+                    viols.append(Violation("eof-hang", key, str(e)))
+                except Exception as e:
+                    viols.append(Violation("valid-message-rejected", key, f"{type(e).__name__}: {e}; an earlier connection ended with {fdesc}"[:300]))
+                log.add(sched.now, 0, "reconnect", ci)
+                net.sockets.remove(ns)
+                npeer.sock = None
+                ns = None
+            faults.hit("reconnect-after-dead-connection")
     seen = set()
     for v in viols:
         kk = (v.clause, v.key)
         if kk not in seen:
             seen.add(kk)
             res.violations.append(v.to_json())
-    split = len(sock.recv_log) > len(scenario["frames"]) * 2 or any(len(d) > 0 and i > 0 for i, (t, d) in enumerate(segs))
+    split = recv_count > len(scenario["frames"]) * 2 or nsplit > 1
     res.nontrivial = bool(fault) or split
     res.sim_time = sched.now
     res.steps = sched.steps
@@ -667,6 +721,10 @@ def shrink_candidates(scenario, tape):
     if scenario.get("prelude"):
         sc = copy.deepcopy(scenario)
         del sc["prelude"]
+        yield sc, tape
+    if scenario.get("reconnect"):
+        sc = copy.deepcopy(scenario)
+        del sc["reconnect"]
         yield sc, tape
     if len(scenario["frames"]) > 1:
         for i in range(len(scenario["frames"]) - 1, -1, -1):
